@@ -11,12 +11,15 @@ import FsModel.Proto
   `walk.globpath <start> <hex name>`   — the two glob strings for an entry of directory <start>
 
   <tree>  : flat encoding `T…` of RefDriver (entries in listing order)
-  <start> : hex of the `/`-joined components of the start directory (`-` = root)
+  <start> : hex of the `/`-joined components of the start directory (`-` = root); or, prefixed with
+            `R`, hex of the *raw* start-path string handed to the walker (normalised by the model as
+            `_iter_walk` does: `abspath(normpath(path))`)
   <opt>   : `f=`, `x=`, `fd=`, `xd=` + `L<hex,…>`  the names accepted by
             `fs.match(<that option>, ·)` (the matcher is a parameter of the model: it is
             instantiated with the truth table the harness computed with the real matcher);
-            `fg=`, `xg=` + `L<hex,…>`  the path strings accepted by
-            `fs.match_glob(filter_glob, ·, accept_prefix=True)` / `fs.match_glob(exclude_glob, ·)`;
+            `fg=`, `fe=`, `xg=` + `L<hex,…>`  the path strings accepted by
+            `fs.match_glob(filter_glob, ·, accept_prefix=True)` / `fs.match_glob(filter_glob, ·)` /
+            `fs.match_glob(exclude_glob, ·)` (`fg` and `fe` are given together);
             `md=<int>`.  An absent key is `None`.
 -/
 namespace Fs.WalkDriver
@@ -44,7 +47,8 @@ def parseOpt (o : Opts) (a : String) : Option Opts :=
       | "x" => some { o with exclude := some (table l) }
       | "fd" => some { o with filterDirs := some (table l) }
       | "xd" => some { o with excludeDirs := some (table l) }
-      | "fg" => some { o with filterGlob := some (table l) }
+      | "fg" => some { o with filterGlob := some { exact := (o.filterGlob.map (·.exact)).getD (fun _ => false), pref := table l } }
+      | "fe" => some { o with filterGlob := some { exact := table l, pref := (o.filterGlob.map (·.pref)).getD (fun _ => false) } }
       | "xg" => some { o with excludeGlob := some (table l) }
       | _ => none
   | _ => none
@@ -52,9 +56,13 @@ def parseOpt (o : Opts) (a : String) : Option Opts :=
 def parseOpts (args : List String) : Option Opts :=
   args.foldlM parseOpt ({} : Opts)
 
-def parseStart (a : String) : Option WPath := do
-  let s ← hexToStr a
-  pure (if s.isEmpty then [] else Path.splitSlash s)
+def parseStart (a : String) : Option (Res WPath) := do
+  if a.startsWith "R" then
+    let s ← hexToStr (a.drop 1).toString
+    pure (startOf s)
+  else
+    let s ← hexToStr a
+    pure (.ok (if s.isEmpty then [] else Path.splitSlash s))
 
 def kindStr (n : Node) : String := if n.isDir then "d" else "f"
 
@@ -82,12 +90,12 @@ def handle (cmd : String) (args : List String) : Option String :=
     let variant ← args[3]?
     let o ← parseOpts (args.drop 4)
     match variant with
-    | "iter" => some (res (seqStr eventStr) (iterWalk o s t start))
-    | "iterp" => some ("ok " ++ seqStr eventStr (iterWalkPaths o t start))
-    | "info" => some (res (seqStr resStr) (info o s t start))
-    | "files" => some (res (seqStr fun p => strToHex (render p)) (files o s t start))
-    | "dirs" => some (res (seqStr fun p => strToHex (render p)) (dirs o s t start))
-    | "walk" => some (res (seqStr stepStr) (walk o s t start))
+    | "iter" => some (res (seqStr eventStr) (start.bind (iterWalk o s t)))
+    | "iterp" => some (res (seqStr eventStr) (start.map (iterWalkPaths o t)))
+    | "info" => some (res (seqStr resStr) (start.bind (info o s t)))
+    | "files" => some (res (seqStr fun p => strToHex (render p)) (start.bind (files o s t)))
+    | "dirs" => some (res (seqStr fun p => strToHex (render p)) (start.bind (dirs o s t)))
+    | "walk" => some (res (seqStr stepStr) (start.bind (walk o s t)))
     | _ => none
   | "walk.spec" => do
     let t ← RefDriver.loadTree (← args[0]?)
@@ -95,8 +103,8 @@ def handle (cmd : String) (args : List String) : Option String :=
     let order ← args[2]?
     let o ← parseOpts (args.drop 3)
     match order with
-    | "pre" => some ("ok " ++ seqStr resStr (selected o t start))
-    | "post" => some ("ok " ++ seqStr resStr (selectedPost o t start))
+    | "pre" => some (res (seqStr resStr) (start.map (selected o t)))
+    | "post" => some (res (seqStr resStr) (start.map (selectedPost o t)))
     | _ => none
   | "walk.depth" => do
     let p ← arg args 0
@@ -104,7 +112,7 @@ def handle (cmd : String) (args : List String) : Option String :=
   | "walk.globpath" => do
     let start ← parseStart (← args[0]?)
     let k ← arg args 1
-    some ("ok " ++ strToHex (dirGlobPath start k) ++ " " ++ strToHex (fileGlobPath start k))
+    some (res id (start.map fun st => strToHex (dirGlobPath st k) ++ " " ++ strToHex (fileGlobPath st k)))
   | _ => none
 
 end Fs.WalkDriver
